@@ -103,11 +103,66 @@ func stmts(list []ast.Stmt, ind string, twoResults bool) string {
 		}
 		return ind + expr(x.Results[0])
 	case *ast.AssignStmt:
+		if len(x.Lhs) != len(x.Rhs) || (x.Tok != token.ASSIGN && x.Tok != token.DEFINE) {
+			panic("unsupported assignment form")
+		}
 		out := ""
-		for i := range x.Lhs {
-			out += ind + "let " + expr(x.Lhs[i]) + " := " + expr(x.Rhs[i]) + "\n"
+		if len(x.Lhs) == 1 {
+			out += ind + "let " + expr(x.Lhs[0]) + " := " + expr(x.Rhs[0]) + "\n"
+		} else {
+			// Go evaluates every right-hand side before it assigns: bind them to temporaries first
+			for i := range x.Rhs {
+				out += ind + fmt.Sprintf("let tmp%d_ := ", i) + expr(x.Rhs[i]) + "\n"
+			}
+			for i := range x.Lhs {
+				out += ind + "let " + expr(x.Lhs[i]) + fmt.Sprintf(" := tmp%d_\n", i)
+			}
 		}
 		return out + stmts(rest, ind, twoResults)
+	case *ast.SwitchStmt:
+		// a tag-less `switch { case c1: …; case c2: …; default: … }` is an if-chain; no case falls through
+		if x.Init != nil || x.Tag != nil {
+			panic("unsupported switch form (tag or init statement)")
+		}
+		var dflt []ast.Stmt
+		haveDefault := false
+		type arm struct {
+			cond ast.Expr
+			body []ast.Stmt
+		}
+		var arms []arm
+		for _, cs := range x.Body.List {
+			cc := cs.(*ast.CaseClause)
+			for _, st := range cc.Body {
+				if br, ok := st.(*ast.BranchStmt); ok {
+					panic("unsupported branch statement in switch: " + br.Tok.String())
+				}
+			}
+			if cc.List == nil {
+				if len(arms) != len(x.Body.List)-1 {
+					panic("default clause must be the last one")
+				}
+				dflt, haveDefault = cc.Body, true
+				continue
+			}
+			var cond ast.Expr = cc.List[0]
+			for _, e := range cc.List[1:] {
+				cond = &ast.BinaryExpr{X: cond, Op: token.LOR, Y: e}
+			}
+			arms = append(arms, arm{cond, cc.Body})
+		}
+		var build func(i int, ind string) string
+		build = func(i int, ind string) string {
+			if i == len(arms) {
+				if haveDefault {
+					return stmts(append(append([]ast.Stmt{}, dflt...), rest...), ind, twoResults)
+				}
+				return stmts(rest, ind, twoResults)
+			}
+			body := append(append([]ast.Stmt{}, arms[i].body...), rest...)
+			return ind + "if " + expr(arms[i].cond) + " then\n" + stmts(body, ind+"  ", twoResults) + "\n" + ind + "else\n" + build(i+1, ind+"  ")
+		}
+		return build(0, ind)
 	case *ast.IfStmt:
 		thenB := append(append([]ast.Stmt{}, x.Body.List...), rest...)
 		var elseB []ast.Stmt
@@ -174,13 +229,27 @@ func genResolve(repo, outdir string) {
 		}
 		switch fd.Name.Name {
 		case "ResolveConflict":
-			sb.WriteString("def resolveConflict (act01 act02 : Action) : Except Unit Action :=\n" + stmts(fd.Body.List, "  ", true) + "\n\n")
+			sb.WriteString("def resolveConflict (" + paramNames(fd) + " : Action) : Except Unit Action :=\n" + stmts(fd.Body.List, "  ", true) + "\n\n")
 		case "UseDefaultResolveConflict":
-			sb.WriteString("def useDefaultResolveConflict (act01 act02 : Action) : Action :=\n" + stmts(fd.Body.List, "  ", false) + "\n\n")
+			sb.WriteString("def useDefaultResolveConflict (" + paramNames(fd) + " : Action) : Action :=\n" + stmts(fd.Body.List, "  ", false) + "\n\n")
 		}
 	}
 	sb.WriteString("end Gen\n")
 	writeIfChanged(outdir+"/Resolve.lean", sb.String())
+}
+
+// paramNames: the two *Action parameters of a resolution function, as declared
+func paramNames(fd *ast.FuncDecl) string {
+	var names []string
+	for _, f := range fd.Type.Params.List {
+		for _, n := range f.Names {
+			names = append(names, n.Name)
+		}
+	}
+	if len(names) != 2 {
+		panic("resolution function must have two parameters")
+	}
+	return strings.Join(names, " ")
 }
 
 // writeIfChanged keeps the file's mtime when nothing changed so that lake does not rebuild.
